@@ -120,6 +120,19 @@ def run(chk):
                                             'keep_alive_history': len(sc['ops']) > 1})
     for sc, o in zip(scs, obs):
         judge(chk, sc, o)
+    # the running-task hand-shake of every interrupted worker instance vs Mpire.Kill.step
+    klines, krefs = [], []
+    for sc, o in zip(scs, obs):
+        for oo in o.get('ops', []):
+            for inst, evs in (oo.get('kill') or {}).items():
+                klines.append('kill ev=' + ','.join(evs))
+                krefs.append((sc, inst))
+    for line, res, (sc, inst) in zip(klines, drv.run(klines), krefs):
+        chk.count('running-task hand-shake of interrupted workers vs Mpire.Kill.step', key=line + inst, nontrivial=True, sample={'instance': inst, 'line': line, 'model': res})
+        if not res.startswith('ok ') or 'phase=escaped' in res:
+            chk.mismatch('kill-signal hand-shake rejected by Mpire.Kill.step', {'scenario': sc, 'instance': inst, 'line': line}, 'trace of the real hand-shake', res)
+            if 'phase=escaped' in res:
+                chk.violation('kill_signal_inside_protected_region', {'scenario': sc}, {'instance': inst, 'events': line}, 'the interrupting signal is handled inside _run_safely', input_class='kill_escaped')
     chk.assumptions += ['real signal delivery latency is not modelled (DetSim delivers at the victim\'s next scheduling point)',
                         "'threading' is excluded from the promptness half (documented)"]
 
